@@ -37,6 +37,10 @@ func (p verifProbe) Call(i *Interpreter, args []interface{}) (interface{}, error
 	verifEvent(p.k, j)
 	stOnProbe(p.k, j)
 	if j >= vpLimit {
+		if vpNoRepeat {
+			// a harness without loops: nothing may be evaluated more often than it has outcomes
+			verifAssert("operand-evaluated-in-reading-order-once", false)
+		}
 		verifAssume(false) // beyond the drawn outcomes: outside the bound (recorded as a cut)
 	}
 	if vpFail[p.k][j] {
@@ -55,6 +59,7 @@ func vpReset(limit int, mode int, mayFail bool) {
 	vpLimit = limit
 	vpN = 0
 	vpNoFail = !mayFail
+	vpNoRepeat = false
 	for k := 0; k < vpMaxProbes; k++ {
 		vpCalls[k] = 0
 		vpSpec[k] = 0
@@ -63,6 +68,10 @@ func vpReset(limit int, mode int, mayFail bool) {
 }
 
 // vpNew creates probe number vpN with its outcomes and returns the expression node.
+// vpNoRepeat: set by harnesses whose node evaluates every probe at most vpLimit times by
+// construction (no loops): an evaluation beyond that is a violation, not a bound.
+var vpNoRepeat bool
+
 func vpNew(mode int, mask int, line int) ast.Expr {
 	k := vpN
 	vpN++
